@@ -330,6 +330,7 @@ pub fn run(ctx: &Ctx) -> Report {
     total.merge(st);
     total.exhaustive_parts.push("all 512 three-digit octal escapes in a format, plain and framed mode: program well-formed with unchanged structure".into());
 
+    crate::selftest::snapshots_read_and_run(&mut total);
     // dictionary: tokens taken from the code generator's own sources (placeholders, literals)
     let dict = crate::dict::tokens();
     let mut st = Stats::new();
